@@ -441,7 +441,29 @@ func relFiles(fs []string, root string) []string {
 }
 
 // notCovered: clauses of each property statement that no contract in reach decides (DESIGN.md section 5).
-var notCovered = map[string][]string{}
+var notCovered = map[string][]string{
+	"C02": {
+		"schema scanner, enum scanner, loader, compiler, checker, validators and OpenAPI conversion are not under contract: their panics are not excluded",
+		"stack depth and memory exhaustion (the model has unbounded memory and recursion depth)",
+		"known finding: Number scanner exponent magnitude above 2^40 (make with a huge length)",
+	},
+	"C04": {"only the integer parsers and the constraint constructors that use them; float parsing (strconv) is external"},
+	"C10": {
+		"history independence of whole results (same answer after any sequence of other inputs): a whole-history property, not a per-call contract",
+		"immutability of returned ASTs, type lists and errors; the shared virtual 'any' node",
+		"BufferPool.Put resets before putting back (buffer length is not modelled)",
+		"Ref.MarshalJSON is trusted; schema source bytes are assumed not to be pool arrays",
+	},
+	"C12": {
+		"language equality with the RFC 8259 pushdown automaton for nesting (coupling of the event stack with the automaton's stack)",
+		"exact lexeme spans and begin/end pairing; tree equality with an independent decoder; Len()",
+	},
+	"C13": {"Number.String(); known findings: 0eN rejected, exponents above 2^40"},
+	"C16": {"positions produced by the schema scanner and loader themselves (only the index -> line/column computation and rendering are proved)"},
+	"C18": {"regexp.Compile is external (uninterpreted validRE); example generation from the regex"},
+	"C19": {"MarshalJSON of the ordered maps; NewRuleASTNodes / NewStringSet API preconditions"},
+	"C20": {"agreement of the integer/float split of GuessSchemaType with the JSON scanner's classifier"},
+}
 
 func hasString(xs []string, x string) bool {
 	for _, y := range xs {
